@@ -260,7 +260,7 @@ def _d(x, y) -> str:
 
 
 def combos(impl, thorough, seed):
-    progs = ["nop", "halt", "off", "wait", "imr_toggle", "imr_word", "ir", "lcd", "card", "clr_halt", "xram", "romw", "wait_scaled"]
+    progs = ["nop", "halt", "off", "wait", "imr_toggle", "imr_word", "ir", "lcd", "card", "clr_halt", "xram", "romw", "wait_scaled", "fhi"]
     if impl == "rust":
         hands = ["reti", "clr", "nest"]
         imrs = [0x8F, 0x0F] if not thorough else [0x00, 0x84, 0x8F, 0x0F]
